@@ -18,6 +18,9 @@ import Algobra.Model.Tables
 import Algobra.Model.Extra
 import Algobra.Gen.ErrSites
 import Algobra.Gen.Consts
+import Algobra.Proofs.Strings
+import Algobra.Proofs.Groebner
+import Algobra.Proofs.ConwayLookup
 namespace Algobra.ErrTies
 open Algobra
 
@@ -191,5 +194,395 @@ theorem kindNames_name : Gen.kindNames = "Inherit" :: [Kind.input, .inputValue, 
 
 theorem name_injective {k k' : Kind} (h : k.name = k'.name) : k = k' := by
   cases k <;> cases k' <;> first | rfl | (revert h; decide)
+
+/-! ## PART B — kinds per modelled function
+
+  `closed_*` / `direct_*`: one lookup of a key in the regenerated table, stated as a literal list.
+  `*_sound`: every kind the model function returns is in the closed list of the Go function.
+  `*_complete`: the direct list of the Go function, and for each of its kinds a concrete input on
+  which the model returns exactly that kind. -/
+
+/-- (local) decidable equality of results, for the witness evaluations -/
+local instance instDecEqExcept {ε α : Type} [DecidableEq ε] [DecidableEq α] : DecidableEq (Except ε α)
+  | .ok a, .ok b =>
+    if h : a = b then isTrue (by rw [h]) else isFalse (fun h' => by injection h' with h'; exact h h')
+  | .error a, .error b =>
+    if h : a = b then isTrue (by rw [h]) else isFalse (fun h' => by injection h' with h'; exact h h')
+  | .ok _, .error _ => isFalse (fun h => by cases h)
+  | .error _, .ok _ => isFalse (fun h => by cases h)
+
+/-- membership of a kind name in a literal list of names -/
+macro "kind_mem" : tactic => `(tactic| first | decide | simp [Kind.name, Kind.toString])
+
+/-! ### auxmath.Pow -/
+
+theorem closed_auxmath_Pow : kindsOf Gen.errClosed "auxmath.Pow" = ["Overflow"] := by decide +kernel
+theorem direct_auxmath_Pow : kindsOf Gen.errDirect "auxmath.Pow" = ["Overflow"] := by decide +kernel
+
+theorem pow_err {a n : Nat} {k : Kind} (h : Auxmath.pow a n = .error k) : k = .overflow := by
+  unfold Auxmath.pow at h
+  split at h <;> cases h; rfl
+
+theorem pow_sound (a n : Nat) (k : Kind) (h : Auxmath.pow a n = .error k) :
+    k.name ∈ kindsOf Gen.errClosed "auxmath.Pow" := by
+  rw [closed_auxmath_Pow, pow_err h]; kind_mem
+
+theorem pow_complete : kindsOf Gen.errDirect "auxmath.Pow" = ["Overflow"] ∧
+    Auxmath.pow 2 64 = .error .overflow := ⟨direct_auxmath_Pow, by decide +kernel⟩
+
+/-! ### auxmath.FactorizePrimePower -/
+
+theorem closed_auxmath_FactorizePrimePower : kindsOf Gen.errClosed "auxmath.FactorizePrimePower" =
+    ["InputValue", "InputIncompatible", "ArithmeticIncompat", "Overflow"] := by decide +kernel
+theorem direct_auxmath_FactorizePrimePower :
+    kindsOf Gen.errDirect "auxmath.FactorizePrimePower" = ["InputValue"] := by decide +kernel
+
+theorem fpp_err {q : Nat} {k : Kind} (h : Auxmath.factorizePrimePower q = .error k) : k = .inputValue := by
+  unfold Auxmath.factorizePrimePower at h
+  simp only at h
+  repeat' split at h
+  all_goals first | (cases h; rfl) | cases h
+
+theorem fpp_sound (q : Nat) (k : Kind) (h : Auxmath.factorizePrimePower q = .error k) :
+    k.name ∈ kindsOf Gen.errClosed "auxmath.FactorizePrimePower" := by
+  rw [closed_auxmath_FactorizePrimePower, fpp_err h]; kind_mem
+
+/-- both error sites of the Go function (0 or 1; not a prime power) -/
+theorem fpp_complete : kindsOf Gen.errDirect "auxmath.FactorizePrimePower" = ["InputValue"] ∧
+    Auxmath.factorizePrimePower 1 = .error .inputValue ∧
+    Auxmath.factorizePrimePower 12 = .error .inputValue :=
+  ⟨direct_auxmath_FactorizePrimePower, by decide +kernel, by decide +kernel⟩
+
+/-! ### primefield.Define -/
+
+theorem closed_primefield_Define : kindsOf Gen.errClosed "primefield.Define" =
+    ["InputValue", "InputIncompatible", "InputTooLarge", "ArithmeticIncompat", "Overflow"] := by decide +kernel
+theorem direct_primefield_Define :
+    kindsOf Gen.errDirect "primefield.Define" = ["InputValue", "InputTooLarge"] := by decide +kernel
+
+theorem primeDefine_err {c : Nat} {k : Kind} (h : Prime.define c = .error k) :
+    k = .inputValue ∨ k = .inputTooLarge := by
+  unfold Prime.define at h
+  split at h
+  · cases h; exact .inl rfl
+  · split at h
+    · cases h; exact .inr rfl
+    · split at h
+      · next k' hk => cases h; exact .inl (fpp_err hk)
+      · split at h <;> cases h; exact .inl rfl
+
+theorem primeDefine_sound (c : Nat) (k : Kind) (h : Prime.define c = .error k) :
+    k.name ∈ kindsOf Gen.errClosed "primefield.Define" := by
+  rw [closed_primefield_Define]
+  rcases primeDefine_err h with rfl | rfl <;> kind_mem
+
+theorem definePrime_sound (c : Nat) (k : Kind) (h : Define.prime c = .error k) :
+    k.name ∈ kindsOf Gen.errClosed "primefield.Define" := by
+  apply primeDefine_sound c
+  unfold Define.prime at h
+  cases hd : Prime.define c with
+  | ok v => rw [hd] at h; cases h
+  | error k' => rw [hd] at h; cases h; rfl
+
+theorem primeDefine_complete :
+    kindsOf Gen.errDirect "primefield.Define" = ["InputValue", "InputTooLarge"] ∧
+    Prime.define 0 = .error .inputValue ∧ Prime.define 9 = .error .inputValue ∧
+    Prime.define (2 ^ 40) = .error .inputTooLarge :=
+  ⟨direct_primefield_Define, by decide +kernel, by decide +kernel, by decide +kernel⟩
+
+/-! ### conway.lookupInternal / conway.Lookup -/
+
+theorem closed_conway_lookupInternal :
+    kindsOf Gen.errClosed "conway.lookupInternal" = ["InputValue", "Internal"] := by decide +kernel
+theorem closed_conway_Lookup :
+    kindsOf Gen.errClosed "conway.Lookup" = ["InputValue", "Internal"] := by decide +kernel
+theorem direct_conway_lookupInternal :
+    kindsOf Gen.errDirect "conway.lookupInternal" = ["InputValue", "Internal"] := by decide +kernel
+
+theorem lookupIn_err {t : String} {p n : Nat} {k : Kind} (h : Conway.lookupIn t p n = .error k) :
+    k = .inputValue ∨ k = .internal := by
+  unfold Conway.lookupIn at h
+  simp only at h
+  repeat' split at h
+  all_goals first | (cases h; simp) | cases h
+
+/-- for every database text (in particular `Gen.dbText` = `conway.Lookup`) -/
+theorem lookupIn_sound (t : String) (p n : Nat) (k : Kind) (h : Conway.lookupIn t p n = .error k) :
+    k.name ∈ kindsOf Gen.errClosed "conway.lookupInternal" ∧
+    k.name ∈ kindsOf Gen.errClosed "conway.Lookup" := by
+  rw [closed_conway_lookupInternal, closed_conway_Lookup]
+  rcases lookupIn_err h with rfl | rfl <;> exact ⟨by kind_mem, by kind_mem⟩
+
+/-- no entry: InputValue. `Internal` needs a malformed database text (an entry with a wrong number of
+    coefficients, or a coefficient that is not a word); on the shipped text `Gen.dbText` it is
+    unreachable (Props/C04.lean `lookup_spec`/`lookup_absent`), and the kernel cannot evaluate
+    `String.splitOn` on a literal, so only the list equation is stated for it. The first `InputValue`
+    site of the Go function — `regexp.Compile` failing on a pattern made of two printed numbers — is
+    unreachable as well; the second one is the witness. -/
+theorem lookupIn_complete :
+    kindsOf Gen.errDirect "conway.lookupInternal" = ["InputValue", "Internal"] ∧
+    Conway.lookupIn "" 3 1 = .error .inputValue := by
+  refine ⟨direct_conway_lookupInternal, C04.lookupIn_absent_of_not_infix "" 3 1 ?_⟩
+  intro h
+  have h2 : C04.keyPattern 3 1 = [] := by simpa using h
+  simp [C04.keyPattern] at h2
+
+/-! ### binfield.Define -/
+
+theorem closed_binfield_Define : kindsOf Gen.errClosed "binfield.Define" =
+    ["InputValue", "InputIncompatible", "InputTooLarge", "ArithmeticIncompat", "Overflow", "Internal"] := by
+  decide +kernel
+theorem direct_binfield_Define :
+    kindsOf Gen.errDirect "binfield.Define" = ["InputValue", "InputTooLarge"] := by decide +kernel
+
+theorem defineBin_err {db : String} {c : Nat} {k : Kind} (h : Define.bin db c = .error k) :
+    k = .inputValue ∨ k = .inputTooLarge ∨ k = .internal := by
+  unfold Define.bin at h
+  split at h
+  · cases h; simp
+  · split at h
+    · next k' hk => cases h; exact .inl (fpp_err hk)
+    · split at h
+      · cases h; simp
+      · split at h
+        · cases h; simp
+        · split at h
+          · next k' hk => cases h; rcases lookupIn_err hk with rfl | rfl <;> simp
+          · cases h
+
+theorem defineBin_sound (db : String) (c : Nat) (k : Kind) (h : Define.bin db c = .error k) :
+    k.name ∈ kindsOf Gen.errClosed "binfield.Define" := by
+  rw [closed_binfield_Define]
+  rcases defineBin_err h with rfl | rfl | rfl <;> kind_mem
+
+/-- the three sites of `binfield.Define` (zero; not a power of two; too large), for every database -/
+theorem defineBin_complete (db : String) :
+    kindsOf Gen.errDirect "binfield.Define" = ["InputValue", "InputTooLarge"] ∧
+    Define.bin db 0 = .error .inputValue ∧ Define.bin db 9 = .error .inputValue ∧
+    Define.bin db (2 ^ 33) = .error .inputTooLarge := by
+  have h9 : Auxmath.factorizePrimePower 9 = .ok (3, 2) := by decide +kernel
+  have h33 : Auxmath.factorizePrimePower (2 ^ 33) = .ok (2, 33) := by decide +kernel
+  refine ⟨direct_binfield_Define, rfl, ?_, ?_⟩
+  · simp [Define.bin, h9]
+  · unfold Define.bin
+    rw [if_neg (by decide), h33]
+    simp [uintSize]
+
+/-! ### extfield.Define -/
+
+theorem closed_extfield_Define : kindsOf Gen.errClosed "extfield.Define" =
+    ["InputValue", "InputIncompatible", "InputTooLarge", "ArithmeticIncompat", "Overflow", "Internal"] := by
+  decide +kernel
+theorem direct_extfield_Define : kindsOf Gen.errDirect "extfield.Define" = ["InputValue"] := by
+  decide +kernel
+
+theorem defineExt_err {db : String} {c : Nat} {k : Kind} (h : Define.ext db c = .error k) :
+    k = .inputValue ∨ k = .inputTooLarge ∨ k = .internal := by
+  unfold Define.ext at h
+  split at h
+  · cases h; simp
+  · split at h
+    · next k' hk => cases h; exact .inl (fpp_err hk)
+    · split at h
+      · next k' hk => cases h; rcases primeDefine_err hk with rfl | rfl <;> simp
+      · split at h
+        · next k' hk => cases h; rcases lookupIn_err hk with rfl | rfl <;> simp
+        · simp only at h
+          split at h
+          · cases h; simp
+          · cases h
+
+theorem defineExt_sound (db : String) (c : Nat) (k : Kind) (h : Define.ext db c = .error k) :
+    k.name ∈ kindsOf Gen.errClosed "extfield.Define" := by
+  rw [closed_extfield_Define]
+  rcases defineExt_err h with rfl | rfl | rfl <;> kind_mem
+
+theorem defineExt_complete (db : String) :
+    kindsOf Gen.errDirect "extfield.Define" = ["InputValue"] ∧
+    Define.ext db 0 = .error .inputValue := ⟨direct_extfield_Define, rfl⟩
+
+/-! ### finitefield.Define -/
+
+theorem closed_finitefield_Define : kindsOf Gen.errClosed "finitefield.Define" =
+    ["InputValue", "InputIncompatible", "InputTooLarge", "ArithmeticIncompat", "Overflow", "Internal"] := by
+  decide +kernel
+theorem direct_finitefield_Define : kindsOf Gen.errDirect "finitefield.Define" = ["InputValue"] := by
+  decide +kernel
+
+theorem defineAny_err {db : String} {c : Nat} {k : Kind} (h : Define.any db c = .error k) :
+    k = .inputValue ∨ k = .inputTooLarge ∨ k = .internal := by
+  unfold Define.any at h
+  split at h
+  · cases h; simp
+  · split at h
+    · exact defineBin_err h
+    · split at h
+      · unfold Define.prime at h
+        cases hd : Prime.define c with
+        | ok v => rw [hd] at h; cases h
+        | error k' =>
+          rw [hd] at h; cases h
+          rcases primeDefine_err hd with rfl | rfl <;> simp
+      · exact defineExt_err h
+
+theorem defineAny_sound (db : String) (c : Nat) (k : Kind) (h : Define.any db c = .error k) :
+    k.name ∈ kindsOf Gen.errClosed "finitefield.Define" := by
+  rw [closed_finitefield_Define]
+  rcases defineAny_err h with rfl | rfl | rfl <;> kind_mem
+
+/-- `errors.Wrap(op, errors.InputValue, err)` around the factorisation error -/
+theorem defineAny_complete (db : String) :
+    kindsOf Gen.errDirect "finitefield.Define" = ["InputValue"] ∧
+    Define.any db 0 = .error .inputValue ∧ Define.any db 12 = .error .inputValue := by
+  have h0 : Auxmath.factorizePrimePower 0 = .error .inputValue := by decide +kernel
+  have h12 : Auxmath.factorizePrimePower 12 = .error .inputValue := by decide +kernel
+  exact ⟨direct_finitefield_Define, by simp [Define.any, h0], by simp [Define.any, h12]⟩
+
+/-! ### the element parsers -/
+
+theorem closed_primefield_ElementFromString :
+    kindsOf Gen.errClosed "primefield.Field.ElementFromString" =
+    ["InputValue", "InputIncompatible", "ArithmeticIncompat", "Parsing", "Overflow"] := by decide +kernel
+theorem direct_primefield_ElementFromString :
+    kindsOf Gen.errDirect "primefield.Field.ElementFromString" = ["Parsing"] := by decide +kernel
+
+theorem primeParse_err {p : Nat} {s : String} {k : Kind} (h : Prime.parse p s = .error k) :
+    k = .parsing := by
+  unfold Prime.parse at h
+  simp only at h
+  repeat' split at h
+  all_goals first | (cases h; rfl) | cases h
+
+theorem primeParse_sound (p : Nat) (s : String) (k : Kind) (h : Prime.parse p s = .error k) :
+    k.name ∈ kindsOf Gen.errClosed "primefield.Field.ElementFromString" := by
+  rw [closed_primefield_ElementFromString, primeParse_err h]; kind_mem
+
+theorem primeParse_complete (p : Nat) :
+    kindsOf Gen.errDirect "primefield.Field.ElementFromString" = ["Parsing"] ∧
+    Prime.parse p "" = .error .parsing := by
+  refine ⟨direct_primefield_ElementFromString, ?_⟩
+  rcases Strings.parse_cases p "" with h | ⟨t, ht, _⟩ | h
+  · have := ((Strings.isDigits_iff "").1 h).1; exact absurd rfl this
+  · have := congrArg String.toList ht
+    simp at this
+  · exact h
+
+theorem closed_binfield_ElementFromString :
+    kindsOf Gen.errClosed "binfield.Field.ElementFromString" =
+    ["InputValue", "InputIncompatible", "InputTooLarge", "ArithmeticIncompat", "Parsing", "Overflow"] := by
+  decide +kernel
+theorem direct_binfield_ElementFromString :
+    kindsOf Gen.errDirect "binfield.Field.ElementFromString" =
+    ["InputValue", "Parsing", "InputTooLarge"] := by decide +kernel
+
+theorem binParse_sound (n m : Nat) (v s : String) (k : Kind) (h : Bin.parse n m v s = .error k) :
+    k.name ∈ kindsOf Gen.errClosed "binfield.Field.ElementFromString" := by
+  rw [closed_binfield_ElementFromString]
+  rcases Strings.bin_parse_error h with rfl | rfl | rfl <;> kind_mem
+
+/-- the matches of the two inputs with an exponent (the tokeniser evaluates in the kernel, the
+    decimal conversions of `parseUint` do not: they go through `Strings.parseUint_eq`) -/
+theorem binParse_complete :
+    kindsOf Gen.errDirect "binfield.Field.ElementFromString" =
+      ["InputValue", "Parsing", "InputTooLarge"] ∧
+    Bin.parse 3 11 "a" "?" = .error .parsing ∧
+    Bin.parse 3 11 "a" "a^64" = .error .inputTooLarge ∧
+    Bin.parse 3 11 "a" "a^18446744073709551616" = .error .inputValue := by
+  refine ⟨direct_binfield_ElementFromString, by decide +kernel, ?_, ?_⟩
+  · have hs : Parse.simpleName "a" = true := by decide +kernel
+    have hm : Parse.matchesBin "a" "a^64" = some [#["a^64", "a^64", "64"]] := by decide +kernel
+    have hp : parseUint "64" = some 64 := by
+      have := Strings.parseUint_toString (n := 64) (by decide)
+      rwa [show toString 64 = "64" by decide +kernel] at this
+    unfold Bin.parse
+    rw [if_pos hs, hm]
+    simp [Bin.parseRx.go, hp, uintSize]
+  · have hs : Parse.simpleName "a" = true := by decide +kernel
+    have hm : Parse.matchesBin "a" "a^18446744073709551616" =
+        some [#["a^18446744073709551616", "a^18446744073709551616", "18446744073709551616"]] := by
+      decide +kernel
+    have hp : parseUint "18446744073709551616" = none := by
+      have : parseUint (toString (2 ^ 64)) = none := by
+        rw [Strings.parseUint_eq, if_pos (Strings.isDigits_toString _), Strings.toNat!_toString]
+        simp
+      rwa [show toString (2 ^ 64) = "18446744073709551616" by decide +kernel] at this
+    unfold Bin.parse
+    rw [if_pos hs, hm]
+    simp [Bin.parseRx.go, hp]
+
+theorem closed_extfield_ElementFromString :
+    kindsOf Gen.errClosed "extfield.Field.ElementFromString" =
+    ["InputValue", "InputIncompatible", "InputTooLarge", "ArithmeticIncompat", "Parsing", "Conversion",
+     "Overflow", "Internal"] := by decide +kernel
+theorem direct_extfield_ElementFromString :
+    kindsOf Gen.errDirect "extfield.Field.ElementFromString" = ["Parsing"] := by decide +kernel
+
+theorem extParse_sound (p : Nat) (g : List Nat) (s : String) (k : Kind)
+    (h : Ext.parse p g s = .error k) :
+    k.name ∈ kindsOf Gen.errClosed "extfield.Field.ElementFromString" := by
+  rw [closed_extfield_ElementFromString, Strings.ext_parse_error h]; kind_mem
+
+/-- `errors.Wrap(op, errors.Parsing, err)` around whatever `PolynomialFromString` reports -/
+theorem extParse_complete :
+    kindsOf Gen.errDirect "extfield.Field.ElementFromString" = ["Parsing"] ∧
+    Ext.parse 3 [2, 2, 1] "?" = .error .parsing :=
+  ⟨direct_extfield_ElementFromString, by decide +kernel⟩
+
+/-! ### the polynomial parsers -/
+
+theorem closed_univariate_PolynomialFromString :
+    kindsOf Gen.errClosed "univariate.QuotientRing.PolynomialFromString" =
+    ["InputValue", "InputIncompatible", "InputTooLarge", "ArithmeticIncompat", "Parsing", "Conversion",
+     "Overflow", "Internal"] := by decide +kernel
+theorem closed_univariate_polynomialStringToMap :
+    kindsOf Gen.errClosed "univariate.polynomialStringToMap" =
+    ["InputValue", "InputIncompatible", "InputTooLarge", "ArithmeticIncompat", "Parsing", "Conversion",
+     "Overflow", "Internal"] := by decide +kernel
+theorem direct_univariate_polynomialStringToMap :
+    kindsOf Gen.errDirect "univariate.polynomialStringToMap" = ["Internal", "Parsing"] := by
+  decide +kernel
+theorem direct_univariate_degreeAndCoef :
+    kindsOf Gen.errDirect "univariate.monomialMatch.degreeAndCoef" = ["Conversion"] := by decide +kernel
+
+theorem uParse_sound {α : Type} (R : UPoly.Ring α) (s : String) (k : Kind)
+    (h : UPoly.parse R s = .error k) :
+    k.name ∈ kindsOf Gen.errClosed "univariate.QuotientRing.PolynomialFromString" ∧
+    k.name ∈ kindsOf Gen.errClosed "univariate.polynomialStringToMap" := by
+  rw [closed_univariate_PolynomialFromString, closed_univariate_polynomialStringToMap]
+  rcases Strings.u_parse_error h with rfl | rfl | rfl <;> exact ⟨by kind_mem, by kind_mem⟩
+
+/-- Parsing: a character no match covers. (`Internal` of `polynomialStringToMap`/`newMonomialMatch` —
+    a pattern that does not compile, a match without the expected groups — is unreachable in the Go
+    code for a pattern assembled from quoted names; a `Conversion` witness is
+    Props/C15Full.lean `parse_monomial_overflow`.) -/
+theorem uParse_complete :
+    kindsOf Gen.errDirect "univariate.polynomialStringToMap" = ["Internal", "Parsing"] ∧
+    kindsOf Gen.errDirect "univariate.monomialMatch.degreeAndCoef" = ["Conversion"] ∧
+    UPoly.parse { F := primeOps 7, varName := "X", modulus := none } "?" = .error .parsing :=
+  ⟨direct_univariate_polynomialStringToMap, direct_univariate_degreeAndCoef, by decide +kernel⟩
+
+theorem closed_bivariate_PolynomialFromString :
+    kindsOf Gen.errClosed "bivariate.QuotientRing.PolynomialFromString" =
+    ["InputValue", "InputIncompatible", "InputTooLarge", "ArithmeticIncompat", "Parsing", "Conversion",
+     "Overflow", "Internal"] := by decide +kernel
+theorem closed_bivariate_polynomialStringToMap :
+    kindsOf Gen.errClosed "bivariate.polynomialStringToMap" =
+    ["InputValue", "InputIncompatible", "InputTooLarge", "ArithmeticIncompat", "Parsing", "Conversion",
+     "Overflow", "Internal"] := by decide +kernel
+theorem direct_bivariate_polynomialStringToMap :
+    kindsOf Gen.errDirect "bivariate.polynomialStringToMap" = ["Internal", "Parsing"] := by
+  decide +kernel
+
+theorem bParse_sound {α : Type} (R : BPoly.Ring α) (s : String) (k : Kind)
+    (h : BPoly.parse R s = .error k) :
+    k.name ∈ kindsOf Gen.errClosed "bivariate.QuotientRing.PolynomialFromString" ∧
+    k.name ∈ kindsOf Gen.errClosed "bivariate.polynomialStringToMap" := by
+  rw [closed_bivariate_PolynomialFromString, closed_bivariate_polynomialStringToMap]
+  rcases Strings.b_parse_error h with rfl | rfl | rfl <;> exact ⟨by kind_mem, by kind_mem⟩
+
+theorem bParse_complete :
+    kindsOf Gen.errDirect "bivariate.polynomialStringToMap" = ["Internal", "Parsing"] ∧
+    BPoly.parse ⟨primeOps 5, ⟨.lex, true⟩, ("X", "Y"), none⟩ "?" = .error .parsing :=
+  ⟨direct_bivariate_polynomialStringToMap, by decide +kernel⟩
 
 end Algobra.ErrTies
